@@ -19,6 +19,19 @@ package project
 // Every string on which a function-level case (semver / clean) is emitted and that lies inside the quantifier is
 // ALSO put into a whole configuration (packed several to a configuration) and goes through the direct oracle; a
 // failing configuration is shrunk (keep-one-item, then remove-one-item) before it is reported.
+//
+// REWRITING IN PLACE (dawn get / dawn tidy load dawn.toml, change the configuration and write it to the SAME path):
+// the destination's previous state is an input of WriteConfigFile.  Every configuration is therefore also written
+// over a destination that is not fresh, and the oracle is: the bytes at the path afterwards are the bytes of a write
+// to a fresh path, and LoadConfigFile(path) gives the configuration written.  Families: (A) every generated
+// configuration over the serialisation of the previous one; (B) base configurations x explicit previous states
+// (absent, empty, identical, own bytes + a tail, a truncated earlier write, the serialisation of a superset / subset
+// configuration, a hand-written layout with comments, random bytes shorter/equal/longer, 64 KiB, a symbolic link);
+// (C) get/tidy histories: a hand-written or canonical file, then load-modify-write steps on the one path;
+// (D) a hand-written layout (comments, alignment, basic strings, multi-line arrays, sub-tables, CRLF, compact) of
+// every valid configuration, loaded and written back in place ("loses nothing but comments and layout").
+//   {"t":"rw","prior":kind,"cfg":C,"valid":bool,"old":hex|null,"bytes":hex}   file at the path after the rewrite (family B)
+//   ORACLE records of these families also carry "old" (hex|null), "prior", "fresh" (hex) and "history" ([C..]).
 // C = {"name":hex,"version":hex,"ignore":[hex..],"reqs":[[namehex,pathhex,versionhex]..]} (reqs sorted by name)
 
 import (
@@ -149,7 +162,12 @@ func TestVerifC19(t *testing.T) {
 		nrand = 300
 	}
 	rng := rand.New(rand.NewSource(int64(seed)*104729 + 19))
+	// tens of thousands of small create/remove operations: a memory file system when there is one (7 s -> 0.5 s)
 	dir := t.TempDir()
+	if d, err := os.MkdirTemp("/dev/shm", "verif-c19-"); err == nil {
+		dir = d
+		defer os.RemoveAll(d)
+	}
 	p1, p2 := filepath.Join(dir, "dawn.toml"), filepath.Join(dir, "dawn2.toml")
 
 	// one write -> load -> write pass over the implementation
@@ -248,7 +266,7 @@ func TestVerifC19(t *testing.T) {
 		}
 		return c
 	}
-	shrink := func(c *Config) *Config {
+	shrinkBy := func(c *Config, fails func(*Config) bool) *Config {
 		its := items(c)
 		if len(its) > 1 {
 			for _, it := range its {
@@ -280,6 +298,286 @@ func TestVerifC19(t *testing.T) {
 		}
 		return build(its)
 	}
+	shrink := func(c *Config) *Config { return shrinkBy(c, fails) }
+
+	// ---------------- rewriting in place: the destination's previous state ----------------
+	p3 := filepath.Join(dir, "dawn-in-place.toml")
+	type prior struct {
+		kind   string
+		absent bool   // no such file
+		data   []byte // the bytes the file holds
+		link   bool   // the path is a symbolic link to a file holding data
+	}
+	setPrior := func(pr prior) {
+		os.Remove(p3)
+		os.Remove(p3 + ".real")
+		switch {
+		case pr.absent:
+		case pr.link:
+			os.WriteFile(p3+".real", pr.data, 0o644)
+			os.Symlink(p3+".real", p3)
+		default:
+			os.WriteFile(p3, pr.data, 0o644)
+		}
+	}
+	type rwpass struct {
+		panic            string
+		ferr, werr, lerr error
+		want, got        []byte // a write to a fresh path; the destination after the rewrite
+		loaded           *Config
+	}
+	rewrite := func(pr prior, c *Config) (r rwpass) {
+		os.Remove(p1)
+		var p bool
+		if r.ferr, p = c19write(p1, c); p {
+			r.panic = "write"
+			return
+		}
+		r.want, _ = os.ReadFile(p1)
+		setPrior(pr)
+		if r.werr, p = c19write(p3, c); p {
+			r.panic = "rewrite"
+			return
+		}
+		r.got, _ = os.ReadFile(p3)
+		if r.loaded, r.lerr, p = c19load(p3); p {
+			r.panic = "load"
+		}
+		return
+	}
+	rwVerdict := func(c *Config, r rwpass) (name, detail string) {
+		switch {
+		case r.panic != "":
+			return r.panic + "-panics", ""
+		case !c19valid(c) || r.ferr != nil: // outside the quantifier / already reported by the fresh-path oracle
+			return "", ""
+		case r.werr != nil:
+			return "rewrite-in-place-fails", r.werr.Error()
+		case r.lerr != nil:
+			return "rewritten-file-does-not-load-back", r.lerr.Error()
+		case !c19same(r.loaded, c):
+			lj, _ := json.Marshal(c19export(r.loaded))
+			return "rewritten-file-loads-a-different-configuration", string(lj)
+		case string(r.got) != string(r.want):
+			return "rewrite-in-place-differs-from-fresh-write", hex.EncodeToString(r.got)
+		}
+		return "", ""
+	}
+	rwStats := map[string]int{}
+	nRw := 0
+	rwDo := func(fam string, pr prior, c *Config, history []*Config, emitCase bool) {
+		r := rewrite(pr, c)
+		rwStats["family:"+fam]++
+		if r.panic == "" && r.ferr == nil {
+			switch {
+			case pr.absent:
+				rwStats["onto:absent"]++
+			case len(pr.data) > len(r.want):
+				rwStats["onto:longer"]++
+			case len(pr.data) < len(r.want):
+				rwStats["onto:shorter"]++
+			default:
+				rwStats["onto:same-length"]++
+			}
+		}
+		oldHex := func(q prior) any {
+			if q.absent {
+				return nil
+			}
+			return hex.EncodeToString(q.data)
+		}
+		if emitCase && r.panic == "" && r.ferr == nil && r.werr == nil && len(pr.data) <= 4096 {
+			emit(map[string]any{"t": "rw", "prior": pr.kind, "cfg": c19export(c), "valid": c19valid(c), "old": oldHex(pr),
+				"bytes": hex.EncodeToString(r.got)})
+		}
+		name, detail := rwVerdict(c, r)
+		if name == "" || nRw >= 100 {
+			return
+		}
+		nRw++
+		small, sp := c, pr
+		if nRw <= 20 {
+			// shrink the configuration with the previous state held fixed ...
+			s := shrinkBy(c, func(x *Config) bool { n, _ := rwVerdict(x, rewrite(pr, x)); return n != "" })
+			if n, _ := rwVerdict(s, rewrite(pr, s)); n != "" {
+				small = s
+			}
+			// ... then the previous state: no symbolic link, and the shortest failing prefix found by bisection
+			if !sp.absent {
+				bad := func(q prior) bool { n, _ := rwVerdict(small, rewrite(q, small)); return n != "" }
+				if q := sp; q.link {
+					if q.link = false; bad(q) {
+						sp = q
+					}
+				}
+				lo, hi := 0, len(sp.data)
+				for lo < hi {
+					mid := (lo + hi) / 2
+					q := sp
+					if q.data = sp.data[:mid]; bad(q) {
+						hi = mid
+					} else {
+						lo = mid + 1
+					}
+				}
+				q := sp
+				if q.data = sp.data[:hi]; bad(q) {
+					sp = q
+				}
+			}
+		}
+		sr := rewrite(sp, small)
+		n2, d2 := rwVerdict(small, sr)
+		if n2 == "" {
+			small, sp, sr, n2, d2 = c, pr, r, name, detail
+		}
+		var hist []*c19cfg
+		for _, h := range history {
+			hist = append(hist, c19export(h))
+		}
+		emit(map[string]any{"t": "ORACLE", "name": n2, "cfg": c19export(small), "bytes": hex.EncodeToString(sr.got),
+			"fresh": hex.EncodeToString(sr.want), "old": oldHex(sp), "prior": pr.kind, "link": sp.link, "detail": d2,
+			"from": "rewrite-in-place:" + fam + ":" + pr.kind, "orig": c19export(c), "history": hist})
+	}
+
+	// a hand-written layout of a (valid UTF-8) configuration: TOML written from the language's specification and not
+	// with the code under test.  Basic strings ("..", \" \\ \uXXXX), bare or quoted keys.
+	c19basic := func(s string) string {
+		var b strings.Builder
+		b.WriteByte('"')
+		for _, r := range s {
+			switch {
+			case r == '"':
+				b.WriteString(`\"`)
+			case r == '\\':
+				b.WriteString(`\\`)
+			case r < 0x20 || r == 0x7f:
+				fmt.Fprintf(&b, `\u%04X`, r)
+			default:
+				b.WriteRune(r)
+			}
+		}
+		b.WriteByte('"')
+		return b.String()
+	}
+	c19key := func(k string) string {
+		bare := k != ""
+		for i := 0; i < len(k); i++ {
+			ch := k[i]
+			if !(ch >= 'A' && ch <= 'Z' || ch >= 'a' && ch <= 'z' || ch >= '0' && ch <= '9' || ch == '_' || ch == '-') {
+				bare = false
+			}
+		}
+		if bare {
+			return k
+		}
+		return c19basic(k)
+	}
+	decorate := func(c *Config, style int) []byte {
+		names := make([]string, 0, len(c.Requirements))
+		for k := range c.Requirements {
+			names = append(names, k)
+		}
+		sort.Strings(names)
+		var b strings.Builder
+		switch style % 3 {
+		case 0: // comments, blank lines, aligned values, multi-line array with a trailing comma
+			b.WriteString("# Project file.\n#\n# Keep the requirements sorted, please.\n\n")
+			if c.Name != "" {
+				b.WriteString("name    = " + c19basic(c.Name) + "     # the project name\n")
+			}
+			if c.Version != "" {
+				b.WriteString("version = " + c19basic(c.Version) + "\n")
+			}
+			if len(c.Ignore) != 0 {
+				b.WriteString("\n# Nothing under these is a package.\nignore = [\n")
+				for i, g := range c.Ignore {
+					fmt.Fprintf(&b, "    %s,   # pattern %d\n", c19basic(g), i)
+				}
+				b.WriteString("]\n")
+			}
+			if len(names) != 0 {
+				b.WriteString("\n[requirements]\n# Core libraries.\n")
+				for i, k := range names {
+					r := c.Requirements[k]
+					if i%3 == 2 {
+						b.WriteString("\n# Pinned until the migration is done.\n")
+					}
+					fmt.Fprintf(&b, "%-12s = { path = %s,  version = %s }   # checked\n", c19key(k), c19basic(r.Path), c19basic(r.Version))
+				}
+			}
+			b.WriteString("\n# end of file\n")
+		case 1: // CRLF line ends, version before name, one sub-table per requirement with version before path
+			if c.Version != "" {
+				b.WriteString("version = " + c19basic(c.Version) + "\r\n")
+			}
+			if c.Name != "" {
+				b.WriteString("name = " + c19basic(c.Name) + "\r\n")
+			}
+			b.WriteString("ignore = [")
+			for i, g := range c.Ignore {
+				if i > 0 {
+					b.WriteString(" ,")
+				}
+				b.WriteString(" " + c19basic(g))
+			}
+			b.WriteString(" ]\r\n")
+			for _, k := range names {
+				r := c.Requirements[k]
+				b.WriteString("\r\n[requirements." + c19key(k) + "]\r\n")
+				b.WriteString("version = " + c19basic(r.Version) + "\r\n")
+				b.WriteString("path = " + c19basic(r.Path) + "   # where it lives\r\n")
+			}
+		default: // compact: no spaces, no final newline (shorter than the canonical form)
+			var lines []string
+			if c.Name != "" {
+				lines = append(lines, "name="+c19basic(c.Name))
+			}
+			if c.Version != "" {
+				lines = append(lines, "version="+c19basic(c.Version))
+			}
+			if len(c.Ignore) != 0 {
+				var gs []string
+				for _, g := range c.Ignore {
+					gs = append(gs, c19basic(g))
+				}
+				lines = append(lines, "ignore=["+strings.Join(gs, ",")+"]")
+			}
+			if len(names) != 0 {
+				lines = append(lines, "[requirements]")
+				for _, k := range names {
+					r := c.Requirements[k]
+					lines = append(lines, c19key(k)+"={version="+c19basic(r.Version)+",path="+c19basic(r.Path)+"}")
+				}
+			}
+			b.WriteString(strings.Join(lines, "\n"))
+		}
+		return []byte(b.String())
+	}
+	// family D: the hand-written file is loaded and the loaded configuration written back over it
+	nDecor := 0
+	handWritten := func(c *Config) {
+		style := nDecor
+		nDecor++
+		pr := prior{kind: fmt.Sprintf("hand-written:style%d", style%3), data: decorate(c, style)}
+		setPrior(pr)
+		before, err, p := c19load(p3)
+		switch {
+		case p:
+			rwStats["hand-written:load-panics"]++
+			return
+		case err != nil || !c19valid(before):
+			rwStats["hand-written:not-loadable"]++
+			emit(map[string]any{"t": "NOTE", "name": "hand-written-not-loadable", "cfg": c19export(c), "old": hex.EncodeToString(pr.data)})
+			return
+		case !c19same(before, c):
+			rwStats["hand-written:loads-differently"]++
+			emit(map[string]any{"t": "NOTE", "name": "hand-written-loads-differently", "cfg": c19export(c), "old": hex.EncodeToString(pr.data)})
+		}
+		rwDo("hand-written-layout", pr, before, nil, false)
+	}
+	var lastW []byte
+	firstW := true
 
 	nOracle := 0
 	do := func(kind string, c *Config) {
@@ -297,6 +595,14 @@ func TestVerifC19(t *testing.T) {
 			rec["panic"] = r.panic
 		}
 		emit(rec)
+		if r.panic == "" && r.werr == nil {
+			// family A: the same configuration over what the previous one left at the path; family D: over a hand-written layout
+			rwDo("previous-configuration", prior{kind: "previous-configuration", absent: firstW, data: lastW}, c, nil, false)
+			firstW, lastW = false, r.b1
+			if c19valid(c) {
+				handWritten(c)
+			}
+		}
 		name, detail := verdict(c, r)
 		if name == "" || nOracle >= 300 {
 			return
@@ -576,4 +882,190 @@ func TestVerifC19(t *testing.T) {
 		}
 		do("random", c)
 	}
+
+	// ---- rewriting in place, families B and C ----
+	fresh := func(c *Config) []byte {
+		os.Remove(p2)
+		c19write(p2, c)
+		b, _ := os.ReadFile(p2)
+		return b
+	}
+	clone := func(c *Config) *Config {
+		n := &Config{Name: c.Name, Version: c.Version, Ignore: append([]string{}, c.Ignore...), Requirements: map[string]RequirementConfig{}}
+		for k, r := range c.Requirements {
+			n.Requirements[k] = r
+		}
+		return n
+	}
+	rvalid := func(minReqs int) *Config { // a random configuration inside the quantifier
+		c := &Config{Requirements: map[string]RequirementConfig{}}
+		if rng.Intn(4) != 0 {
+			c.Name = rs()
+		}
+		if rng.Intn(3) != 0 {
+			c.Version = rs()
+		}
+		for n := rng.Intn(4); n > 0; n-- {
+			c.Ignore = append(c.Ignore, rs())
+		}
+		for n := minReqs + rng.Intn(6); n > 0; n-- {
+			c.Requirements[rs()] = req(okPaths[rng.Intn(len(okPaths))], okVers[rng.Intn(len(okVers))])
+		}
+		return c
+	}
+	randBytes := func(n int) []byte {
+		b := make([]byte, n)
+		rng.Read(b)
+		return b
+	}
+	// family B: explicit previous states of the destination
+	priorsFor := func(c *Config) []prior {
+		w := fresh(c)
+		ps := []prior{{kind: "absent", absent: true}, {kind: "empty-file"}, {kind: "identical", data: w}}
+		add := func(kind string, data []byte) { ps = append(ps, prior{kind: kind, data: data}) }
+		tail := func(kind, t string) { add(kind, append(append([]byte{}, w...), t...)) }
+		tail("own+newline", "\n")
+		tail("own+byte", "x")
+		tail("own+comment", "# trailing comment\n")
+		tail("own+requirement-line", "zz = {path = 'z', version = 'v9.9.9'}\n")
+		tail("own+section", "\n[requirements]\nzz = {path = 'z', version = 'v9.9.9'}\n")
+		if len(w) > 1 {
+			add("own-truncated", w[:len(w)/2])
+			add("own-minus-last-byte", w[:len(w)-1])
+		}
+		// the serialisation of a larger configuration (what tidy finds) and of a smaller one (what get finds)
+		sup := clone(c)
+		sup.Requirements["zz-extra"] = req("example.com/extra@v2", "v2.3.4")
+		add("superset:last-requirement", fresh(sup))
+		sup = clone(c)
+		sup.Requirements["-first"] = req("example.com/first", "v0.1.0")
+		add("superset:first-requirement", fresh(sup))
+		sup = clone(c)
+		sup.Name, sup.Version, sup.Ignore = c.Name+"-with-a-longer-name", c.Version+".1", append(sup.Ignore, "more/**")
+		add("superset:longer-head", fresh(sup))
+		if len(c.Requirements) != 0 {
+			sub, last := clone(c), ""
+			for k := range sub.Requirements {
+				if k >= last {
+					last = k
+				}
+			}
+			delete(sub.Requirements, last)
+			add("subset:without-last-requirement", fresh(sub))
+			sub = clone(c)
+			sub.Requirements = nil
+			add("subset:no-requirements", fresh(sub))
+		}
+		if len(c.Ignore) != 0 || c.Name != "" || c.Version != "" {
+			sub := clone(c)
+			sub.Name, sub.Version, sub.Ignore = "", "", nil
+			add("subset:no-head", fresh(sub))
+		}
+		for st := 0; st < 3; st++ {
+			add(fmt.Sprintf("hand-written:style%d", st), decorate(c, st))
+		}
+		add("random-bytes:one", randBytes(1))
+		if len(w) > 1 {
+			add("random-bytes:one-shorter", randBytes(len(w)-1))
+		}
+		add("random-bytes:same-length", randBytes(len(w)))
+		add("random-bytes:one-longer", randBytes(len(w)+1))
+		add("random-bytes:longer", randBytes(2*len(w)+7))
+		add("random-bytes:64KiB", randBytes(1<<16))
+		add("zero-bytes", make([]byte, 1000))
+		add("other-configuration", fresh(rvalid(0)))
+		ps = append(ps, prior{kind: "symbolic-link:own+requirement-line", link: true, data: append(append([]byte{}, w...), "zz = {path = 'z', version = 'v9.9.9'}\n"...)},
+			prior{kind: "symbolic-link:hand-written", link: true, data: decorate(c, 0)})
+		return ps
+	}
+	bases := []*Config{
+		{},
+		{Name: "n"},
+		{Requirements: map[string]RequirementConfig{"dep": req("github.com/a/b", "v1.2.3")}},
+		{Name: "n", Version: "0.1", Ignore: []string{"*.o", "build/**"}, Requirements: map[string]RequirementConfig{"b": req("b", "v1.0.0"), "a": req("a@v3", "v3.1.4")}},
+		{Name: "it's", Version: "say \"hi\"", Ignore: []string{"a'b\"c\\d\ne", ""}, Requirements: map[string]RequirementConfig{"a b": req("a/b@v2", "v2.0.0-rc.1"), "": req(".", "v0.0.0")}},
+		{Name: "日本語", Ignore: []string{"é/**"}, Requirements: map[string]RequirementConfig{"é": req("é/\U0001F600@v2", "v2.0.0"), "\U0001F600": req("a", "v1.0.0-x-y-z.--")}},
+		{Ignore: []string{"only", "ignore"}},
+	}
+	many := &Config{Name: "many", Requirements: map[string]RequirementConfig{}}
+	for i := 0; i < 12; i++ {
+		many.Requirements[fmt.Sprintf("dep%02d", i)] = req(goodP[i%len(goodP)], goodV[i%len(goodV)])
+	}
+	bases = append(bases, many)
+	nbase, _ := strconv.Atoi(os.Getenv("VERIF_NBASE"))
+	if nbase == 0 {
+		nbase = 8
+	}
+	for i := 0; i < nbase; i++ {
+		bases = append(bases, rvalid(0))
+	}
+	for _, c := range bases {
+		if !c19valid(c) {
+			continue
+		}
+		for _, pr := range priorsFor(c) {
+			rwDo("previous-state", pr, c, nil, true)
+		}
+	}
+	// family C: get / tidy histories on one path: a hand-written or canonical dawn.toml, then load - modify - write steps
+	nchain, _ := strconv.Atoi(os.Getenv("VERIF_NCHAIN"))
+	if nchain == 0 {
+		nchain = 40
+	}
+	for ch := 0; ch < nchain; ch++ {
+		c := rvalid(2)
+		start := fresh(c)
+		if st := rng.Intn(4); st < 3 {
+			start = decorate(c, st)
+		}
+		setPrior(prior{data: start})
+		cur, err, p := c19load(p3)
+		if p || err != nil || !c19valid(cur) {
+			rwStats["history:start-not-loadable"]++
+			continue
+		}
+		history := []*Config{cur}
+		at := start
+		for step := 0; step < 6; step++ {
+			next := clone(cur)
+			names := make([]string, 0, len(next.Requirements))
+			for k := range next.Requirements {
+				names = append(names, k)
+			}
+			sort.Strings(names)
+			op := "rewrite-unchanged"
+			switch o := rng.Intn(7); {
+			case o <= 1 && len(names) > 0: // tidy: requirements that are no longer needed go away
+				op = "tidy-drop"
+				for n := 1 + rng.Intn(len(names)); n > 0; n-- {
+					delete(next.Requirements, names[rng.Intn(len(names))])
+				}
+			case o == 2: // get: a new requirement
+				op = "get-add"
+				next.Requirements[rs()] = req(okPaths[rng.Intn(len(okPaths))], okVers[rng.Intn(len(okVers))])
+			case o == 3 && len(names) > 0: // get: another version (and possibly another major) of an existing one
+				op = "get-version"
+				k := names[rng.Intn(len(names))]
+				next.Requirements[k] = req(okPaths[rng.Intn(len(okPaths))], okVers[rng.Intn(len(okVers))])
+			case o == 4:
+				op = "rename"
+				next.Name, next.Version = rs(), rs()
+			case o == 5:
+				op = "ignore"
+				next.Ignore = nil
+				for n := rng.Intn(3); n > 0; n-- {
+					next.Ignore = append(next.Ignore, rs())
+				}
+			}
+			if !c19valid(next) {
+				continue
+			}
+			rwStats["history-step:"+op]++
+			rwDo("history", prior{kind: fmt.Sprintf("history-step-%d:%s", step, op), data: at}, next, history, false)
+			at, _ = os.ReadFile(p3) // what the implementation left: the next step starts from it
+			history = append(history, next)
+			cur = next
+		}
+	}
+	emit(map[string]any{"t": "rwstats", "counts": rwStats})
 }
